@@ -395,8 +395,8 @@ func (d *drv) newIter(r *table.Reader, lo, hi int, ro *opt.ReadOptions) (it iter
 }
 
 // scan: a whole pass in one direction; pairs seen and the final error class.
-func (d *drv) scan(r *table.Reader, fwd bool) (pairs [][2]int, ec int) {
-	it, ec0, _ := d.newIter(r, -1, d.u.n(), nil)
+func (d *drv) scan(r *table.Reader, fwd bool, ro *opt.ReadOptions) (pairs [][2]int, ec int) {
+	it, ec0, _ := d.newIter(r, -1, d.u.n(), ro)
 	if it == nil {
 		return nil, ec0
 	}
@@ -880,8 +880,14 @@ func (d *drv) observe(img []byte, probes []int) (obs *obsT) {
 		ec, off, _ := d.offsetOf(r, k)
 		obs.offs = append(obs.offs, [3]int{k, ec, off})
 	}
-	fwd, fe := d.scan(r, true)
-	bwd, be := d.scan(r, false)
+	fwd, fe := d.scan(r, true, nil)
+	// the backward scan reads the way compactions do: no cache fill, per-read strictness overriding the table's
+	// (with the same reader strictness, so the expected outcome is the same; block checksums stay a property of the open table)
+	cro := &opt.ReadOptions{DontFillCache: true, Strict: opt.StrictOverride}
+	if d.row.strict {
+		cro.Strict |= opt.StrictReader
+	}
+	bwd, be := d.scan(r, false, cro)
 	if fwd != nil {
 		obs.fwd = fwd
 	}
